@@ -417,6 +417,14 @@ class Interp(Engine):
 
     def st_For(self, node):
         it = self.ev(node.iter)
+        if isinstance(it, SV) and parse_tag(it.ty)[0] == "dict" and not self.discovery and self.is_fresh(it):
+            # a dict built on this path from literal keys (a small table): iterate its keys in insertion order
+            keys_, t_ = [], z3.simplify(self.dict_of(it))
+            while z3.is_app(t_) and t_.decl().kind() == z3.Z3_OP_STORE and not _has_uninterp(t_.arg(1)):
+                keys_.append(t_.arg(1))
+                t_ = t_.arg(0)
+            if keys_ and len(keys_) <= 4 and z3.is_const_array(t_) and len({k.get_id() for k in keys_}) == len(keys_):
+                it = TupV([self.from_term(k, _lit_tag(k)) for k in reversed(keys_)])
         if isinstance(it, RangeV):
             lo_, hi_ = z3.simplify(it.lo), z3.simplify(it.hi)
             if z3.is_int_value(lo_) and z3.is_int_value(hi_) and hi_.as_long() - lo_.as_long() <= 4:
@@ -496,6 +504,10 @@ class Interp(Engine):
         self.assume(z3.ForAll([i], z3.Implies(z3.And(0 <= i, i < n), m[seq[i]])))
         self.assume(z3.ForAll([i, j], z3.Implies(z3.And(0 <= i, i < j, j < n), seq[i] != seq[j])))
         self.assume(z3.ForAll([x], z3.Implies(m[x], z3.Contains(seq, z3.Unit(x)))))
+        # the same with an explicit witness: a member sits at position set_pos(seq, x); positions and elements are inverse
+        p_ = so.set_pos(seq, x)
+        self.assume(z3.ForAll([x], z3.Implies(m[x], z3.And(0 <= p_, p_ < n, seq[p_] == x)), patterns=[p_]))
+        self.assume(z3.ForAll([i], z3.Implies(z3.And(0 <= i, i < n), so.set_pos(seq, seq[i]) == i)))
         # a set display {e1, .., ek}: every listed element has a position (ground facts: no instantiation needed)
         elems, t = [], z3.simplify(m)
         while z3.is_app(t) and t.decl().kind() == z3.Z3_OP_STORE and z3.is_true(t.arg(2)):
@@ -517,6 +529,10 @@ class Interp(Engine):
         # the same fact with an explicit witness: a present key sits at position dict_pos(m, key) of the order
         p = so.dict_pos(m, x)
         self.assume(z3.ForAll([x], z3.Implies(m[x] != Val.absent, z3.And(0 <= p, p < n, seq[p] == x)), patterns=[m[x]]))
+        # and in the vocabulary of iteration orders in general (pos_in(order, x) in specs)
+        q_ = so.set_pos(seq, x)
+        self.assume(z3.ForAll([x], z3.Implies(m[x] != Val.absent, z3.And(0 <= q_, q_ < n, seq[q_] == x)), patterns=[q_]))
+        self.assume(z3.ForAll([i], z3.Implies(z3.And(0 <= i, i < n), so.set_pos(seq, seq[i]) == i)))
 
     def loop_spec(self, node):
         f = self.frame.func
@@ -842,8 +858,8 @@ class Interp(Engine):
     def ev_Dict(self, node):
         if self.spec_mode and node.keys and all(isinstance(k, ast.Constant) for k in node.keys):
             vals = [self.ev(v) for v in node.values]
-            if any(not isinstance(v, (SV, TupV, ClassV)) for v in vals):
-                return StaticDictV({k.value: v for k, v in zip(node.keys, vals)})
+            if any(not isinstance(v, (SV, TupV)) for v in vals):
+                return StaticDictV({k.value: v for k, v in zip(node.keys, vals)})      # a table of classes / functions
             m = so.EMPTY_KW
             for k, v in zip(node.keys, vals):
                 m = z3.Store(m, self.to_term(self.const(k.value), node), self.to_term(v, node))
@@ -1213,6 +1229,11 @@ class Interp(Engine):
                 vt = obj.elem
             if self.spec_mode:
                 return self.from_term(val, vt)
+            if getattr(self, "_no_branch", 0):
+                # inside a comprehension element evaluated for a symbolic key: no path split; the presence of the key becomes a
+                # side condition that the comprehension must discharge for every element
+                self._comp_side.append(val != Val.absent)
+                return self.from_term(val, vt)
             if not self.branch(val != Val.absent, "key L%d" % node.lineno):
                 self.raise_builtin("KeyError", node, [idx])
             return self.from_term(val, vt)
@@ -1349,13 +1370,30 @@ class Interp(Engine):
         saved = self.spec_mode
         self.spec_mode += 1      # element expression must be pure
         npc, heap0 = len(self.st.pc), dict(self.st.heap)
+        vv_ = None
         try:
-            body = self.to_term(self.ev(node.elt), node)
+            vv_ = self.ev(node.elt)
+            body = self.to_term(vv_, node)
         finally:
             self.spec_mode = saved
             self.pop_bind()
         changed = [k for k in set(self.st.heap) | set(heap0) if self.st.heap.get(k) is not heap0.get(k)]
         if any(k != "$alloc" for k in changed):
+            ci_ = self.class_of_tag(vv_.ty) if isinstance(vv_, SV) and self.is_fresh(vv_) else None
+            if ci_ is not None and all(k == "$alloc" or k.startswith("f:") for k in changed):
+                # each element CONSTRUCTS an object (e.g. one PrefixedMismatch per item): over-approximated by new objects of that
+                # class with unknown fields; the single evaluation's heap effects are discarded
+                self.st.heap = dict(heap0)
+                a0 = self.comp("$alloc")
+                a2 = so.fresh("alloc", so.I)
+                self.assume(a2 >= a0)
+                self.st.heap["$alloc"] = a2
+                self.assume(z3.Length(out) == n)
+                self.assume(z3.ForAll([j], z3.Implies(z3.And(0 <= j, j < n), z3.And(
+                    Val.is_ref(out[j]), Val.r(out[j]) >= a0, Val.r(out[j]) < a2, so.typeof(Val.r(out[j])) == self.class_id(ci_))), patterns=[out[j]]))
+                if kind == "list" and not self.spec_mode:
+                    return self.new_list(out, ci_.name)
+                return PSeq(out, ci_.name)
             self.unsupported(node, "comprehension element with side effects on %s" % sorted(changed))
         if changed or any(_mentions(a, j) for a in self.st.pc[npc:]):
             # a call with a fresh result inside the element expression: its facts hold for ONE (free) index only, so they must not
